@@ -176,7 +176,9 @@ func (e *Engine) collectHavoc(nodes []ast.Node, st *State) *havocSet {
 		case *ast.SendStmt:
 			markSend(x.Chan)
 		case *ast.GoStmt:
-			unsup("go statement inside a loop at %s", e.src(x))
+			if _, isLit := ast.Unparen(x.Call.Fun).(*ast.FuncLit); isLit {
+				unsup("go func literal inside a loop at %s", e.src(x))
+			}
 		case *ast.CallExpr:
 			// builtin close
 			if id, ok := x.Fun.(*ast.Ident); ok && id.Name == "close" && len(x.Args) == 1 {
@@ -579,6 +581,8 @@ func (e *Engine) spawnLoop(x *ast.ForStmt) *ast.GoStmt {
 }
 
 func (e *Engine) execFor(x *ast.ForStmt, st *State) []Out {
+	e.loopDepth++
+	defer func() { e.loopDepth-- }()
 	if g := e.spawnLoop(x); g != nil {
 		e.notes["worker pool sequentialised: the "+e.src(x)+" loop spawns workers over a shared job channel; one worker process is verified, interleavings of several workers are not modelled"] = true
 		st.procs = append(st.procs, g)
@@ -645,6 +649,8 @@ func (e *Engine) execFor(x *ast.ForStmt, st *State) []Out {
 }
 
 func (e *Engine) execRange(x *ast.RangeStmt, st *State) []Out {
+	e.loopDepth++
+	defer func() { e.loopDepth-- }()
 	t := e.typeOf(x.X)
 	switch u := t.Underlying().(type) {
 	case *types.Chan:
